@@ -381,6 +381,9 @@ pub struct ChunkCase {
     pub base: ChunkModel,
     pub muts: Vec<ChunkMut>,
     pub edits: Vec<ByteEdit>,
+    /// bytes appended after the payload CRC word (e.g. the zero word that pads a MIDAS bank to 64 bits)
+    #[serde(default)]
+    pub trailing: Vec<u8>,
 }
 impl ChunkCase {
     pub fn bytes(&self) -> Vec<u8> {
@@ -390,6 +393,7 @@ impl ChunkCase {
         }
         let mut b = m.encode();
         apply_byte_edits(&mut b, &self.edits);
+        b.extend_from_slice(&self.trailing);
         b
     }
 }
@@ -398,8 +402,9 @@ pub fn chunk_case() -> impl Strategy<Value = ChunkCase> {
         chunk_valid(),
         prop_oneof![4 => vec(chunk_mut(), 0..=0), 5 => vec(chunk_mut(), 1..=1), 1 => vec(chunk_mut(), 2..=3)],
         prop_oneof![8 => vec(byte_edit(), 0..=0), 2 => vec(byte_edit(), 1..=2)],
+        prop_oneof![12 => Just(vec![]), 1 => Just(vec![0u8; 4]), 1 => Just(vec![0u8; 8]), 1 => vec(prop_oneof![Just(0u8), any::<u8>()], 1..=8)],
     )
-        .prop_map(|(base, muts, edits)| ChunkCase { base, muts, edits })
+        .prop_map(|(base, muts, edits, trailing)| ChunkCase { base, muts, edits, trailing })
 }
 
 // ------------------------------------------------------------------ PWB
